@@ -240,3 +240,14 @@ def gen_sde_spec(rng, solver, stiff_choices=(1.0,)):
 def make_y0(spec, dtype):
     g = torch.Generator().manual_seed(derive("y0", spec["seed"]) % (2 ** 62))
     return (torch.rand((spec["batch"], spec["d"]), generator=g, dtype=torch.float64) - 0.5).to(DT[dtype])
+
+
+def steps_of(trace):
+    """The solver's steps as seen through the Brownian proxy: consecutive requests for the same interval (a solver
+    that asks twice for one step, e.g. W and U separately) count as one step."""
+    out = []
+    for req in trace:
+        if out and out[-1][0] == req[0] and out[-1][1] == req[1]:
+            continue
+        out.append(req)
+    return out
